@@ -156,6 +156,55 @@ static void runBufLen(const Opt &o, Ev &ev) {
     ev.label("buflen-cases", idx);
 }
 
+// ---- sub-check: sparse digit patterns.  Values with one to three non-zero digits in the output base (1000000010, 9000000000000000009,
+// 0x8000000100000001 ...) and runs of the largest digit: the inputs on which a formatter that works in groups of digits, skips zero
+// groups or pads them goes wrong, and which neither powers +-3 nor uniform values contain
+static void runDigits(const Opt &o, Ev &ev) {
+    armLazy(lazyOne, nullptr);
+    uint64_t idx = 0, n = 0, nts = 0;
+    auto one = [&](unsigned __int128 v, int base) -> bool {
+        if (v >> 64) return true;
+        if ((idx++ % (uint64_t) o.workers) != (uint64_t) o.worker) return true;
+        for (int bits : {64, 32}) {
+            if (bits == 32 && (v >> 32)) continue;
+            for (int sg = 0; sg < 2; sg++) for (int neg = 0; neg < 2; neg++) {
+                if (neg && !(sg && base == 10)) continue;
+                uint64_t raw = neg ? 0 - (uint64_t) v : (uint64_t) v;
+                if (bits == 32) raw &= 0xffffffffULL;
+                char T[80]; int tl = refText(raw, bits, base, sg, T);
+                for (size_t len : {(size_t) 70, (size_t) (tl > 0 ? tl - 1 : 0), (size_t) tl}) {
+                    One c{raw, bits, base, (bool) sg, (int) (n & 1), len};
+                    bool nt = false;
+                    std::string m = checkExact(c, &nt);
+                    n++; if (nt) nts++;
+                    if (!m.empty()) { failEnum(o, ev, "one", replayText(c), m); if (ev.failures.size() >= 5) return false; }
+                }
+            }
+        }
+        return true;
+    };
+    struct B { int base, positions; int digs[3]; };
+    static const B kB[] = {{10, 20, {1, 5, 9}}, {16, 16, {1, 8, 15}}, {8, 22, {1, 4, 7}}, {2, 64, {1, 1, 1}}};
+    for (const B &b : kB) {
+        std::vector<unsigned __int128> pw; { unsigned __int128 x = 1; for (int i = 0; i <= b.positions; i++) { pw.push_back(x); x *= (unsigned) b.base; } }
+        int nd = b.base == 2 ? 1 : 3;
+        for (int p1 = 0; p1 < b.positions; p1++) for (int d1 = 0; d1 < nd; d1++) {
+            unsigned __int128 v1 = pw[(size_t) p1] * (unsigned) b.digs[d1];
+            if (!one(v1, b.base)) return;
+            for (int p2 = 0; p2 < p1; p2++) for (int d2 = 0; d2 < nd; d2++) {
+                unsigned __int128 v2 = v1 + pw[(size_t) p2] * (unsigned) b.digs[d2];
+                if (!one(v2, b.base)) return;
+                if (d1 == 1 || d2 == 1) continue;                                  // triples: smallest and largest digit only
+                for (int p3 = 0; p3 < p2; p3++) for (int d3 = 0; d3 < nd; d3 += 2) if (!one(v2 + pw[(size_t) p3] * (unsigned) b.digs[d3], b.base)) return;
+            }
+            // a run of the largest digit from position p1 down to p2, zeros below
+            for (int p2 = 0; p2 < p1; p2++) if (!one(pw[(size_t) p1 + 1] - pw[(size_t) p2], b.base)) return;
+        }
+    }
+    ev.eval(n); ev.ntCount(nts); ev.label("sparse-digit-conversions", n);
+    ev.exhaustive["all values with one or two non-zero digits (smallest, middle, largest digit) and all with three (smallest/largest digit) at any positions, and all runs of the largest digit, in bases 10, 16, 8 and 2; signed/unsigned, negated, 32/64 bit; full buffer, one byte short, exact fit"] = true;
+}
+
 // ---- sub-check: random 32/64-bit values, bases, lengths through rapidcheck
 static One decode(Src &s) {
     One c;
@@ -164,7 +213,7 @@ static One decode(Src &s) {
         case 0: c.raw = s.u64() >> s.range(0, 63); break;                        // random magnitude
         case 1: c.raw = (1ULL << s.range(0, 63)) + (uint64_t) (int64_t) s.irange(-3, 3); break;
         case 2: { uint64_t p = 1; int e = (int) s.range(0, 19); while (e--) p *= 10; c.raw = p + (uint64_t) (int64_t) s.irange(-3, 3); if (s.coin()) c.raw = 0 - c.raw; break; }
-        case 3: c.raw = s.u64(); break;
+        case 3: if (s.coin()) c.raw = s.u64(); else { c.raw = 0; int k = (int) s.range(1, 4); for (int i = 0; i < k; i++) { uint64_t p = 1; int e = (int) s.range(0, 19); while (e--) p *= 10; c.raw += p * s.range(1, 9); } if (s.coin()) c.raw = 0 - c.raw; } break;   // uniform, or a few decimal digits
         default: c.raw = s.coin() ? 0x8000000000000000ULL : (s.coin() ? ~0ULL : 0x80000000ULL); break;
     }
     if (c.bits == 32) c.raw &= 0xffffffffULL;
@@ -195,6 +244,7 @@ int main(int argc, char **argv) {
     subs.push_back({"one", [](const Opt &, Ev &) {}, replayOne});
     subs.push_back({"sweep32", runSweep32, replayOne});
     subs.push_back({"buflen", runBufLen, replayOne});
+    subs.push_back({"digits", runDigits, replayOne});
     subs.push_back({"rand", [](const Opt &o, Ev &ev) { disarmLazy(); runRandom(o, ev, "rand", 16, o.quick() ? 200000 : 2000000, bodyRand); },
                     [](const Replay &r) { auto v = r.choices(); Src s(v); Ev e; return bodyRand(s, e); }});
     return mainWith(argc, argv, "C14", subs);
